@@ -764,7 +764,12 @@ RULE = ("(C1) ALL command sequences of length <= 3 (quick) / <= 5 (thorough) ove
 
 def main(tier: str) -> int:
     run = C.Run(PID, tier)
-    proofs_ok = run.check_proofs(TARGETS, extra_tb=[
+    # second tie: simulator.py of the tree under test translated to Gallina and proved equal to Sim/Model.v (harness/simtr.py)
+    import simtr as T
+    tree = T.prepare(run)
+    if tree is None:
+        return run.finish()
+    proofs_ok = T.check_proofs(run, tree, TARGETS, extra_tb=[
         "M1 is proved over Sim/Model.v's command semantics (worker thread executed synchronously, commands observed at strict quiescence); "
         "times are exact dyadic numbers",
         "M2 (Sim/Overlap.v) abstracts CPython's preemption to the listed shared reads/writes of _run_state, _replication_state, the wake-up "
@@ -941,6 +946,8 @@ def main(tier: str) -> int:
                           f"{sc['name']}: the quiescent outcome of {sc['cmd']} overlapping the run thread at {sc['wpc']} is not reachable in Sim/Overlap.v",
                           {"scenario": sc, "impl_observation": {k: sobs[i].get(k) for k in ("snaps", "ntfs", "held_state", "gates", "alive")},
                            "relation": "Sim.Overlap.overlap_allows"}, found_input=False)
+    if tree.broken() and not bad_by_sig:
+        T.report_broken_tie(run, tree)
     if not proofs_ok and not run.violations:
         run.violation("proof-broken", f"a {PID} proof obligation no longer checks: " + getattr(run, "proof_log", "")[-800:],
                       {"theorems": run.cov.get("theorems")}, found_input=False)
